@@ -44,11 +44,15 @@ def main():
         from checks import actors_common
         actors_common.regenerate(None)
 
+    def dec():
+        from translate import decisions
+        decisions.generate()
+
     def mainm():
         import main_model
         main_model.generate()
 
-    for n, f in (("pwm", pwm), ("eco", eco), ("firmware", fw), ("actors", actors), ("main", mainm), ("dispatch/ui", disp)):
+    for n, f in (("pwm", pwm), ("eco", eco), ("firmware", fw), ("actors", actors), ("main", mainm), ("decisions", dec), ("dispatch/ui", disp)):
         step(n, f)
     for n, s in steps:
         print(f"regen {n}: {s}")
